@@ -16,10 +16,10 @@ func NumCPU() int {
 	return int(kern.Call(kern.Req{Op: kern.OpNumCPU}).A)
 }
 
-// GOMAXPROCS reports the simulated CPU count (it cannot be changed).
+// GOMAXPROCS reports the simulated GOMAXPROCS setting, which may differ from the number of CPUs (it cannot be changed).
 func GOMAXPROCS(n int) int {
 	if !kern.Active() {
 		return orig.GOMAXPROCS(n)
 	}
-	return int(kern.Call(kern.Req{Op: kern.OpNumCPU}).A)
+	return int(kern.Call(kern.Req{Op: kern.OpNumCPU, A: 1}).A)
 }
